@@ -12,7 +12,7 @@ PROPS = {
         runs=[dict(pkg="lexer", files=["lexer/zz_verif_json.go", "lexer/zz_verif_stateful.go", "lexer/zz_verif_lexdefs.go", "lexer/zz_verif_lexgen.go", "lexer/zz_verif_conc.go"], harness="^VH_C16_",
                    flags=["-exec-pkgs", "encoding/json,encoding,encoding/base64"], max_steps=20_000_000,
                    reach={"VH_C16_PushPop": ["round-trip"], "VH_C16_IncludeNested": ["round-trip"], "VH_C16_Generated": ["round-trip"], "VH_C16_RuleFields": ["round-trip"]})],
-        bounds=dict(quick="17 catalogue definitions (every action kind, Include first/middle/nested/diamond, Return, elided rules with actions, back-references, multi-byte, non-ASCII and astral-plane patterns and names, names that need quoting) + 40 generated definitions, each marshalled both as a definition and as a rule set, x all inputs of <= 3 arbitrary bytes; rule fields: symbolic texts of <= 2 bytes",
+        bounds=dict(quick="19 catalogue definitions (every action kind, Include first/middle/nested/diamond, Return, elided rules with actions, back-references incl. one behind an unset group, multi-byte, non-ASCII and astral-plane patterns and names, names that start with a non-ASCII letter, names that need quoting) + 40 generated definitions, each marshalled both as a definition and as a rule set, x all inputs of <= 3 arbitrary bytes; rule fields: symbolic texts of <= 2 bytes",
                     thorough="400 generated definitions, inputs <= 4 bytes; rule-field texts as quick"),
         outside="definitions outside the catalogue and the generated family; patterns and names longer than the bound; non-ASCII text beyond one two-byte character in the symbolic rule fields (the catalogue has concrete non-ASCII patterns); invalid UTF-8 in names/patterns (encoding/json replaces it by U+FFFD; regexp.Compile rejects such patterns anyway)",
         assumptions=["encoding/json, encoding, encoding/base64 are executed from SSA; reflect is modelled over go/types; sync.Pool/sync.Map/sync.WaitGroup by single-threaded models",
@@ -33,7 +33,7 @@ PROPS = {
             },
         )],
         bounds=dict(
-            quick="streams of <= 4 tokens + EOF, every token type an arbitrary 32-bit value != EOF, elision set {-2,-3}; cursors arbitrary 64-bit ints subject to the representation invariant; one operation from an arbitrary valid state (induction step) + base case; match predicate = one arbitrary bit per token",
+            quick="streams of <= 4 tokens + EOF, every token type an arbitrary 32-bit value != EOF, elision set one of {-2,-3}, {-64,9}, {-70,64} (next to EOF, far from it, positive); cursors arbitrary 64-bit ints subject to the representation invariant; one operation from an arbitrary valid state (induction step) + base case; match predicate = one arbitrary bit per token",
             thorough="as quick with streams of <= 7 tokens + EOF",
         ),
         outside="streams longer than the bound; elision sets other than two types (the code treats the set only through map membership)",
@@ -49,7 +49,7 @@ PROPS = {
         level_note="trusted: the reference regex matcher that replaces package regexp on symbolic input (validated against the real regexp natively, and every counterexample is replayed against the real regexp before it is reported), the SSA executor (sampled paths replayed natively on every run), z3; bounds: 39 catalogue definitions + 100 (quick) / 400 (thorough) generated definitions, inputs <= 3 (quick) / <= 4 (thorough) bytes",
         runs=[dict(pkg="lexer", files=["lexer/zz_verif_stateful.go", "lexer/zz_verif_lexdefs.go", "lexer/zz_verif_lexgen.go"], harness="^VH_C03_",
                    reach={h: ["error", "tokens"] for h in ["VH_C03_Literal", "VH_C03_Overlap", "VH_C03_PushPop", "VH_C03_Return", "VH_C03_IncludeNested", "VH_C03_Backref", "VH_C03_Generated", "VH_C03_ElidedActions"]})],
-        bounds=dict(quick="100 generated definitions (deterministic generator: 3 states, 1-4 rules per state over 31 patterns, Push/Pop/Return/Include, elided rules with and without actions, back-references) and 39 catalogue definitions (literals, overlapping rules, classes, ., multi-byte class, anchors/word boundaries, alternation, empty-matching rule, case folding, Push/Pop, Return, Include first/middle/nested, Pop and Return in Root, optional group in a Push rule, back-references incl. missing group and metacharacter group) x all inputs of <= 3 arbitrary bytes (incl. invalid UTF-8)",
+        bounds=dict(quick="100 generated definitions (deterministic generator: 3 states, 1-4 rules per state over 31 patterns, Push/Pop/Return/Include, elided rules with and without actions, back-references) and 41 catalogue definitions (literals, overlapping rules, classes, ., multi-byte class, anchors/word boundaries, alternation, empty-matching rule, case folding, Push/Pop, Return, Include first/middle/nested, Pop and Return in Root, optional group in a Push rule, back-references incl. missing group, metacharacter group and a group behind an unset optional group, rule names starting with non-ASCII lower-case / upper-case / caseless letters) x all inputs of <= 3 arbitrary bytes (incl. invalid UTF-8)",
                     thorough="400 generated definitions + same catalogue x all inputs of <= 4 arbitrary bytes"),
         outside="definitions outside the catalogue and the generated family; inputs longer than the bound; correctness of package regexp itself; back-reference groups containing bytes >= 0x80",
         assumptions=["package regexp is replaced on symbolic input by the engine's reference matcher (refre.go), leftmost-first semantics over regexp/syntax trees",
@@ -62,7 +62,7 @@ PROPS = {
         level_note="trusted: as C03; the text/scanner-based lexer is outside the claim (stdlib scanner not encoded); generated lexers are covered by the C05 run",
         runs=[dict(pkg="lexer", files=["lexer/zz_verif_stateful.go", "lexer/zz_verif_lexdefs.go", "lexer/zz_verif_lexgen.go"], harness="^VH_C04_",
                    reach={"VH_C04_Advance": ["same-line", "new-line"], "VH_C04_Literal": ["ok", "error"], "VH_C04_Multibyte": ["ok", "error"]})],
-        bounds=dict(quick="Position.Advance: any 64-bit start position x any span of <= 4 arbitrary bytes; 15 catalogue definitions (incl. dot-all, negated class, multi-line, multi-byte literal rules, elided rules with actions) + 100 generated definitions x all inputs of <= 3 arbitrary bytes",
+        bounds=dict(quick="Position.Advance: any 64-bit start position x any span of <= 4 arbitrary bytes; 16 catalogue definitions (incl. dot-all, negated class, multi-line, multi-byte literal rules, elided rules with actions, non-ASCII rule names) + 100 generated definitions x all inputs of <= 3 arbitrary bytes; 2 definitions x entry point in {LexString, Lex(reader)} chosen by the solver x prefix in {none, UTF-8 BOM, truncated BOM, UTF-16 BOM bytes} + <= 2 arbitrary bytes",
                     thorough="Position.Advance: spans <= 5 bytes; inputs <= 4 bytes"),
         outside="text/scanner-based lexer (content produced by the stdlib scanner); inputs longer than the bound",
         assumptions=["package regexp replaced by the reference matcher on symbolic input"],
@@ -88,7 +88,7 @@ PROPS = {
         level_note="trusted: reference matchers (backtracking and possessive) standing in for package regexp on symbolic input, the SSA executor (sampled paths replayed natively through the emitted code), z3; bounds: 35 catalogue + 24 (quick) / 120 (thorough) generated definitions x inputs <= 3 (quick) / <= 4 (thorough) bytes",
         runs=[dict(pkg="lexer/internal/zzverifgen", pkg_name="zzverifgen", files=["gen/zz_verif_gen.go"], harness="^VH_C05_", generate="c05",
                    reach={"VH_C05_Literal": ["tokens", "error"], "VH_C05_Possessive": ["tolerated", "tokens"], "VH_C05_PushPop": ["tokens"], "VH_C05_G0": ["error"]})],
-        bounds=dict(quick="35 catalogue definitions of the generator's supported class (one per regexp operator the generator handles + multi-state Push/Pop/Return/Include + Pop/Return in Root + elided rules with actions + nullable repetition bodies) and 24 generated definitions (deterministic generator restricted to the supported class) x all inputs of <= 3 arbitrary bytes",
+        bounds=dict(quick="36 catalogue definitions of the generator's supported class (one per regexp operator the generator handles + multi-state Push/Pop/Return/Include + Pop/Return in Root + elided rules with actions + nullable repetition bodies + rule names starting with non-ASCII letters) and 24 generated definitions (deterministic generator restricted to the supported class) x all inputs of <= 3 arbitrary bytes",
                     thorough="same catalogue + 120 generated definitions x all inputs of <= 4 arbitrary bytes"),
         outside="definitions outside the catalogue and the generated family; inputs longer than the bound; back-reference / non-greedy / empty-matching rules (documented as unsupported by the generator)",
         assumptions=["package regexp replaced by reference matchers on symbolic input; the tolerated-difference predicate is 'possessive and backtracking reference matchers disagree on the span of some rule the runtime lexer tried on this input'"],
@@ -112,7 +112,7 @@ PROPS = {
         level_text='bounded model checking by symbolic execution: the real Build (tag lexing by text/scanner executed from SSA, grammar.go, validate) and the real Parse (parser.go, nodes.go, context.go, lexer/peek.go) run on a symbolic token stream; accept/reject and every AST field are compared on every feasible path with an independent reference semantics of the tag language',
         level_note='trusted: the reference semantics (own tag parser + evaluator written from the README, validated natively against the implementation on 960k random cases while designing), the reflect model of the executor (sampled paths are replayed natively with the real reflect on every run), z3; bounds: catalogue grammars x streams of <= 5 (quick) / <= 6 (thorough) tokens of arbitrary type and arbitrary one-byte text, lookahead an unconstrained 64-bit int, AllowTrailing symbolic',
         runs=[dict(pkg=".", files=["root/zz_verif_ref.go", "root/zz_verif_ggcore.go", "root/zz_verif_parse.go", "root/zz_verif_grammars.go", "root/zz_verif_gengrammar.go"], harness='^VH_C01_', reach={'VH_C01_Alt': ['accept', 'reject'], 'VH_C01_Union': ['accept', 'reject'], 'VH_C01_Fold': ['accept'], 'VH_C01_Lookahead': ['accept', 'reject']})],
-        bounds={'quick': 'streams of <= 5 tokens + EOF, token types arbitrary 64-bit values != EOF, token texts arbitrary single bytes, lookahead any int (negative = unlimited), AllowTrailing on/off; symbols A,B,C,Ws,Cm; plus 48 generated grammars (deterministic generator over every operator of the tag language, <= 3 productions, reflect.StructOf types through the real Build) x streams of <= 4 tokens (every twelfth grammar is one level deeper - repetitions inside captures, negated groups - and gets streams of <= 3)', 'thorough': 'as quick with streams of <= 6 tokens; 200 generated grammars x streams of <= 5 tokens (<= 4 for the deeper ones)'},
+        bounds={'quick': 'streams of <= 5 tokens + EOF, token types arbitrary 64-bit values != EOF, token texts arbitrary single bytes, lookahead any int (negative = unlimited), AllowTrailing on/off; symbols A,B,C,Ws,Cm (numbered next to EOF, and in one harness of C01/C10 far from it: -64, -70, and with positive values); plus 48 generated grammars (deterministic generator over every operator of the tag language, <= 3 productions, reflect.StructOf types through the real Build) x streams of <= 4 tokens (every twelfth grammar is one level deeper - repetitions inside captures, negated groups - and gets streams of <= 3)', 'thorough': 'as quick with streams of <= 6 tokens; 200 generated grammars x streams of <= 5 tokens (<= 4 for the deeper ones)'},
         outside='grammars outside the catalogue (20 grammars: sequence, choice, ? * + !, [ ] { }, multi-token captures, parser:"" tag form, ~, (?= ) (?! ), typed literals, case-insensitive tokens, @@ into *T / T / []*T / []T, recursion, unions, lexer.Token / []lexer.Token captures, elision); streams longer than the bound; token texts longer than one byte; non-ASCII case folding; Parseable/Capture/TextUnmarshaler user code; numeric fields (C17); which error is returned (C06)',
         assumptions=["text/scanner, strconv, unicode are executed from SSA; reflect is modelled over go/types; fmt by a small printf model",
                      "token identity is index identity (positions are concrete and unique)"],
@@ -123,7 +123,7 @@ PROPS = {
         level_text='as C01 on grammars in which a capture precedes a possible failure inside every kind of choice point (alternative, ?, *, ~, lookahead group, union member), including a complete sub-production matched inside the abandoned attempt; every AST field — also fields the accepted derivation never wrote — is compared with the reference on every accepted path',
         level_note='trusted: the reference semantics (own tag parser + evaluator written from the README, validated natively against the implementation on 960k random cases while designing), the reflect model of the executor (sampled paths are replayed natively with the real reflect on every run), z3; bounds: catalogue grammars x streams of <= 5 (quick) / <= 6 (thorough) tokens of arbitrary type and arbitrary one-byte text, lookahead an unconstrained 64-bit int, AllowTrailing symbolic',
         runs=[dict(pkg=".", files=["root/zz_verif_ref.go", "root/zz_verif_ggcore.go", "root/zz_verif_parse.go", "root/zz_verif_grammars.go", "root/zz_verif_gengrammar.go"], harness='^VH_C02_', reach={'VH_C02_Leak': ['accept', 'reject'], 'VH_C02_LeakOpt': ['accept'], 'VH_C02_LeakNested': ['accept']})],
-        bounds={'quick': 'streams of <= 5 tokens + EOF, token types arbitrary 64-bit values != EOF, token texts arbitrary single bytes, lookahead any int (negative = unlimited), AllowTrailing on/off; symbols A,B,C,Ws,Cm; plus 48 generated grammars (deterministic generator over every operator of the tag language, <= 3 productions, reflect.StructOf types through the real Build) x streams of <= 4 tokens (every twelfth grammar is one level deeper - repetitions inside captures, negated groups - and gets streams of <= 3)', 'thorough': 'as quick with streams of <= 6 tokens; 200 generated grammars x streams of <= 5 tokens (<= 4 for the deeper ones)'},
+        bounds={'quick': 'streams of <= 5 tokens + EOF, token types arbitrary 64-bit values != EOF, token texts arbitrary single bytes, lookahead any int (negative = unlimited), AllowTrailing on/off; symbols A,B,C,Ws,Cm (numbered next to EOF, and in one harness of C01/C10 far from it: -64, -70, and with positive values); plus 48 generated grammars (deterministic generator over every operator of the tag language, <= 3 productions, reflect.StructOf types through the real Build) x streams of <= 4 tokens (every twelfth grammar is one level deeper - repetitions inside captures, negated groups - and gets streams of <= 3)', 'thorough': 'as quick with streams of <= 6 tokens; 200 generated grammars x streams of <= 5 tokens (<= 4 for the deeper ones)'},
         outside='grammars outside the catalogue; streams longer than the bound',
         assumptions=["text/scanner, strconv, unicode are executed from SSA; reflect is modelled over go/types; fmt by a small printf model",
                      "token identity is index identity (positions are concrete and unique)"],
@@ -134,7 +134,7 @@ PROPS = {
         level_text='bounded model checking by symbolic execution: on every feasible path of Build + ParseString over a symbolic token stream: no panic; nil error implies non-nil AST; an error implements participle.Error, comes with a non-nil partial AST, its position is the position of a token of the input, an UnexpectedTokenError carries the token at that position, and Error() is the documented [file:]line:col: message rendering',
         level_note='trusted: the reference semantics (own tag parser + evaluator written from the README, validated natively against the implementation on 960k random cases while designing), the reflect model of the executor (sampled paths are replayed natively with the real reflect on every run), z3; bounds: catalogue grammars x streams of <= 5 (quick) / <= 6 (thorough) tokens of arbitrary type and arbitrary one-byte text, lookahead an unconstrained 64-bit int, AllowTrailing symbolic',
         runs=[dict(pkg=".", files=["root/zz_verif_ref.go", "root/zz_verif_ggcore.go", "root/zz_verif_parse.go", "root/zz_verif_grammars.go", "root/zz_verif_gengrammar.go", "root/zz_verif_entry.go"], harness='^VH_C06_', reach={'VH_C06_Seq': ['ok', 'error', 'unexpected-token'], 'VH_C06_EmptyTok': ['ok', 'error'], 'VH_C06_Bytes': ['ok', 'lex-error', 'parse-error'], 'VH_C06_LongError': ['lex-error'], 'VH_C06_DefaultLexer': ['ok', 'lex-error', 'parse-error'], 'VH_C06_Unquote': ['error']})],
-        bounds={'quick': 'streams of <= 5 tokens + EOF, token types arbitrary 64-bit values != EOF, token texts arbitrary single bytes, lookahead any int (negative = unlimited), AllowTrailing on/off; symbols A,B,C,Ws,Cm; plus 48 generated grammars (deterministic generator over every operator of the tag language, <= 3 productions, reflect.StructOf types through the real Build) x streams of <= 4 tokens (every twelfth grammar is one level deeper - repetitions inside captures, negated groups - and gets streams of <= 3)', 'thorough': 'as quick with streams of <= 6 tokens; 200 generated grammars x streams of <= 5 tokens (<= 4 for the deeper ones)'},
+        bounds={'quick': 'streams of <= 5 tokens + EOF, token types arbitrary 64-bit values != EOF, token texts arbitrary single bytes, lookahead any int (negative = unlimited), AllowTrailing on/off; symbols A,B,C,Ws,Cm (numbered next to EOF, and in one harness of C01/C10 far from it: -64, -70, and with positive values); plus 48 generated grammars (deterministic generator over every operator of the tag language, <= 3 productions, reflect.StructOf types through the real Build) x streams of <= 4 tokens (every twelfth grammar is one level deeper - repetitions inside captures, negated groups - and gets streams of <= 3)', 'thorough': 'as quick with streams of <= 6 tokens; 200 generated grammars x streams of <= 5 tokens (<= 4 for the deeper ones)'},
         outside='stack depth and running time on long or deeply nested inputs (a bounded symbolic run says nothing about them); lexing failures through the real lexers (covered by C03/C07 at the lexer level); grammars outside the catalogue; user Parseable/Capture code',
         assumptions=["text/scanner, strconv, unicode are executed from SSA; reflect is modelled over go/types; fmt by a small printf model",
                      "token identity is index identity (positions are concrete and unique)"],
@@ -145,7 +145,7 @@ PROPS = {
         level_text="relational bounded model checking: one symbolic raw stream S with elided tokens anywhere and the stream S' with every elided token removed are parsed by the same grammar; acceptance and every captured field must agree on every feasible path (any two inputs with equal non-elided sequences are both related to the same S'); a grammar that names the elided type is compared with the reference semantics",
         level_note='trusted: the reference semantics (own tag parser + evaluator written from the README, validated natively against the implementation on 960k random cases while designing), the reflect model of the executor (sampled paths are replayed natively with the real reflect on every run), z3; bounds: catalogue grammars x streams of <= 5 (quick) / <= 6 (thorough) tokens of arbitrary type and arbitrary one-byte text, lookahead an unconstrained 64-bit int, AllowTrailing symbolic',
         runs=[dict(pkg=".", files=["root/zz_verif_ref.go", "root/zz_verif_ggcore.go", "root/zz_verif_parse.go", "root/zz_verif_grammars.go", "root/zz_verif_gengrammar.go"], harness='^VH_C10_', reach={'VH_C10_Seq': ['has-elided', 'accepted'], 'VH_C10_Alt': ['has-elided', 'accepted'], 'VH_C10_Named': ['accept']})],
-        bounds={'quick': 'streams of <= 5 tokens + EOF, token types arbitrary 64-bit values != EOF, token texts arbitrary single bytes, lookahead any int (negative = unlimited), AllowTrailing on/off; symbols A,B,C,Ws,Cm; plus 48 generated grammars (deterministic generator over every operator of the tag language, <= 3 productions, reflect.StructOf types through the real Build) x streams of <= 4 tokens (every twelfth grammar is one level deeper - repetitions inside captures, negated groups - and gets streams of <= 3)', 'thorough': 'as quick with streams of <= 6 tokens; 200 generated grammars x streams of <= 5 tokens (<= 4 for the deeper ones)'},
+        bounds={'quick': 'streams of <= 5 tokens + EOF, token types arbitrary 64-bit values != EOF, token texts arbitrary single bytes, lookahead any int (negative = unlimited), AllowTrailing on/off; symbols A,B,C,Ws,Cm (numbered next to EOF, and in one harness of C01/C10 far from it: -64, -70, and with positive values); plus 48 generated grammars (deterministic generator over every operator of the tag language, <= 3 productions, reflect.StructOf types through the real Build) x streams of <= 4 tokens (every twelfth grammar is one level deeper - repetitions inside captures, negated groups - and gets streams of <= 3)', 'thorough': 'as quick with streams of <= 6 tokens; 200 generated grammars x streams of <= 5 tokens (<= 4 for the deeper ones)'},
         outside='grammars outside the catalogue; streams longer than the bound; elided tokens whose text equals an untyped literal of the grammar (assumed away: such a literal asks for the token)',
         assumptions=["text/scanner, strconv, unicode are executed from SSA; reflect is modelled over go/types; fmt by a small printf model",
                      "token identity is index identity (positions are concrete and unique)"],
@@ -156,7 +156,7 @@ PROPS = {
         level_text='bounded model checking by symbolic execution: on every accepted path the Tokens / Pos / EndPos fields of every node (direct and via an embedded struct) are compared with the token run the reference semantics assigns to that node: contiguity, containment in the parent, sibling order, root run ending at the last consumed token, Pos = first non-elided token, EndPos = next raw token',
         level_note='trusted: the reference semantics (own tag parser + evaluator written from the README, validated natively against the implementation on 960k random cases while designing), the reflect model of the executor (sampled paths are replayed natively with the real reflect on every run), z3; bounds: catalogue grammars x streams of <= 5 (quick) / <= 6 (thorough) tokens of arbitrary type and arbitrary one-byte text, lookahead an unconstrained 64-bit int, AllowTrailing symbolic',
         runs=[dict(pkg=".", files=["root/zz_verif_ref.go", "root/zz_verif_ggcore.go", "root/zz_verif_parse.go", "root/zz_verif_grammars.go", "root/zz_verif_gengrammar.go"], harness='^VH_C11_', reach={'VH_C11_Pos': ['accept', 'node-consumed'], 'VH_C11_Embedded': ['accept', 'node-consumed']})],
-        bounds={'quick': 'streams of <= 5 tokens + EOF, token types arbitrary 64-bit values != EOF, token texts arbitrary single bytes, lookahead any int (negative = unlimited), AllowTrailing on/off; symbols A,B,C,Ws,Cm; plus 48 generated grammars (deterministic generator over every operator of the tag language, <= 3 productions, reflect.StructOf types through the real Build) x streams of <= 4 tokens (every twelfth grammar is one level deeper - repetitions inside captures, negated groups - and gets streams of <= 3)', 'thorough': 'as quick with streams of <= 6 tokens; 200 generated grammars x streams of <= 5 tokens (<= 4 for the deeper ones)'},
+        bounds={'quick': 'streams of <= 5 tokens + EOF, token types arbitrary 64-bit values != EOF, token texts arbitrary single bytes, lookahead any int (negative = unlimited), AllowTrailing on/off; symbols A,B,C,Ws,Cm (numbered next to EOF, and in one harness of C01/C10 far from it: -64, -70, and with positive values); plus 48 generated grammars (deterministic generator over every operator of the tag language, <= 3 productions, reflect.StructOf types through the real Build) x streams of <= 4 tokens (every twelfth grammar is one level deeper - repetitions inside captures, negated groups - and gets streams of <= 3)', 'thorough': 'as quick with streams of <= 6 tokens; 200 generated grammars x streams of <= 5 tokens (<= 4 for the deeper ones)'},
         outside='grammars outside the catalogue; convertible position types other than lexer.Position; streams longer than the bound',
         assumptions=["text/scanner, strconv, unicode are executed from SSA; reflect is modelled over go/types; fmt by a small printf model",
                      "token identity is index identity (positions are concrete and unique)"],
@@ -167,7 +167,7 @@ PROPS = {
         level_text='relational bounded model checking: the same symbolic stream is parsed with lookahead k and k2, both symbolic with k >= 0 and (k2 < 0 or k2 > k); whenever the first parse succeeds the second must succeed with a field-by-field identical AST (no reference semantics involved)',
         level_note='trusted: the reference semantics (own tag parser + evaluator written from the README, validated natively against the implementation on 960k random cases while designing), the reflect model of the executor (sampled paths are replayed natively with the real reflect on every run), z3; bounds: catalogue grammars x streams of <= 5 (quick) / <= 6 (thorough) tokens of arbitrary type and arbitrary one-byte text, lookahead an unconstrained 64-bit int, AllowTrailing symbolic',
         runs=[dict(pkg=".", files=["root/zz_verif_ref.go", "root/zz_verif_ggcore.go", "root/zz_verif_parse.go", "root/zz_verif_grammars.go", "root/zz_verif_gengrammar.go"], harness='^VH_C13_', reach={'VH_C13_Alt': ['succeeds-with-k', 'fails-with-k'], 'VH_C13_LeakOpt': ['succeeds-with-k']})],
-        bounds={'quick': 'streams of <= 5 tokens + EOF, token types arbitrary 64-bit values != EOF, token texts arbitrary single bytes, lookahead any int (negative = unlimited), AllowTrailing on/off; symbols A,B,C,Ws,Cm; plus 48 generated grammars (deterministic generator over every operator of the tag language, <= 3 productions, reflect.StructOf types through the real Build) x streams of <= 4 tokens (every twelfth grammar is one level deeper - repetitions inside captures, negated groups - and gets streams of <= 3)', 'thorough': 'as quick with streams of <= 6 tokens; 200 generated grammars x streams of <= 5 tokens (<= 4 for the deeper ones)'},
+        bounds={'quick': 'streams of <= 5 tokens + EOF, token types arbitrary 64-bit values != EOF, token texts arbitrary single bytes, lookahead any int (negative = unlimited), AllowTrailing on/off; symbols A,B,C,Ws,Cm (numbered next to EOF, and in one harness of C01/C10 far from it: -64, -70, and with positive values); plus 48 generated grammars (deterministic generator over every operator of the tag language, <= 3 productions, reflect.StructOf types through the real Build) x streams of <= 4 tokens (every twelfth grammar is one level deeper - repetitions inside captures, negated groups - and gets streams of <= 3)', 'thorough': 'as quick with streams of <= 6 tokens; 200 generated grammars x streams of <= 5 tokens (<= 4 for the deeper ones)'},
         outside='grammars outside the catalogue (9 grammars without ~ and lookahead groups); streams longer than the bound',
         assumptions=["text/scanner, strconv, unicode are executed from SSA; reflect is modelled over go/types; fmt by a small printf model",
                      "token identity is index identity (positions are concrete and unique)"],
@@ -179,7 +179,7 @@ PROPS = {
         level_note="trusted: the stub contract (text/scanner + textScannerTransform turn the rendered tag text into exactly the chosen tokens) — validated on every run because sampled paths and every counterexample are replayed natively with real struct tags lexed by the real scanner; reflect.StructOf is modelled over go/types; bounds below",
         runs=[dict(pkg=".", files=["root/zz_verif_ref.go", "root/zz_verif_ggcore.go", "root/zz_verif_parse.go", "root/zz_verif_grammars.go", "root/zz_verif_build.go"], harness="^VH_C19_", samples=12,
                    reach={"VH_C19_FieldTypes": ["built", "rejected"], "VH_C19_TagBytes": ["built", "rejected"], "VH_C19_Soup1": ["built", "rejected"], "VH_C19_Soup2": ["built", "rejected"]})],
-        bounds=dict(quick="one field: all sequences of 1..3 tokens over a 15-token alphabet (@ ! ~ ? * + ( ) [ ] | : known ident, unknown ident, string) x 6 field types (string, *Struct, []string, bool, map, interface); two fields: all sequences of 1..2 tokens per field over an 8-token alphabet x 3 field types; 40 kinds of field type (Parseable by value/pointer/interface, Capture, TextUnmarshaler, self-referential slice and pointer types, arrays, channels, funcs, numeric, nested slices ...) x 12 capture forms under a termination bound; character level: 4 valid prefixes + a tail of <= 2 characters from an 18-character alphabet (quotes, back-quote, backslash, brackets, operators, NUL, newline, non-ASCII) through the real tag lexer and text/scanner",
+        bounds=dict(quick="one field: all sequences of 1..3 tokens over a 15-token alphabet (@ ! ~ ? * + ( ) [ ] | : known ident, unknown ident, string) x 6 field types (string, *Struct, []string, bool, map, interface); two fields: all sequences of 1..2 tokens per field over an 8-token alphabet x 3 field types; 50 kinds of field type (Parseable by value/pointer/interface, Capture, TextUnmarshaler, self-referential slice and pointer types, named slice/pointer types that reach a self-referential or mutually recursive type from outside its cycle, slices of pointers to scalars, arrays, channels, funcs, numeric, nested slices ...) x 12 capture forms under a termination bound; character level: 4 valid prefixes + a tail of <= 2 characters from an 18-character alphabet (quotes, back-quote, backslash, brackets, operators, NUL, newline, non-ASCII) through the real tag lexer and text/scanner",
                     thorough="one field: 1..4 tokens over an 18-token alphabet (adds { } =) x 8 field types; two fields: 1..3 tokens per field; tag tails of <= 3 characters"),
         outside="tokenisation of arbitrary tag characters beyond the character-level harness (the token-soup harnesses stub the tag lexer); reflect shapes beyond the list; tags longer than the bound",
         assumptions=["(*tagLexer).Next is replaced by a harness stub returning the chosen tokens (same tokens whenever a field is re-lexed)"],
@@ -191,7 +191,7 @@ PROPS = {
         level_note="trusted: the reference analysis (half 1) - cross-checked by the independent run-time monitor (half 2); node graphs are built as parseSequence/parseDisjunction shape them (head flags, collapsing of singletons); the template's selectors are finite, so for half 1 the solver decides feasibility only; bounds below",
         runs=[dict(pkg=".", files=["root/zz_verif_ref.go", "root/zz_verif_ggcore.go", "root/zz_verif_parse.go", "root/zz_verif_grammars.go", "root/zz_verif_graph.go"], harness="^VH_C08_",
                    reach={"VH_C08_Validate": ["left-recursive", "not-left-recursive"], "VH_C08_ValidateWide": ["left-recursive", "not-left-recursive"], "VH_C08_ValidateThree": ["left-recursive", "not-left-recursive"], "VH_C08_Parse": ["accepted-by-validate", "parsed", "rejected"]})],
-        bounds=dict(quick="root production: 1-2 alternatives, <= 2 terms in the first and 1 in the second, 10 term kinds (literal, lit?, (?= lit), ~lit, @@self, @@other, (@@self)?, (?= @@self), (lit?)!, (@(lit?))!); second production: 1-2 terms from {literal, lit?, @@self, @@root}: 24 200 grammars; wide template: one alternative of <= 4 terms; three-production template (entry production in front of two mutually referring ones): 2 400 grammars; parse half: streams <= 3 tokens, lookahead any int",
+        bounds=dict(quick="root production: 1-2 alternatives, <= 2 terms in the first and 1 in the second, 10 term kinds (literal, lit?, (?= lit), ~lit, @@self, @@other, (@@self)?, (?= @@self), (lit?)!, (@(lit?))!); second production: 1-2 terms from {literal, lit?, @@self, @@root}: 24 200 grammars; wide template: one alternative of <= 4 terms; three-production template (entry production in front of two mutually referring ones): 2 400 grammars; non-empty-group template (( @@self )!, ( @@other )!, ( @@self lit )!, EOF, \"\" next to token-led alternatives): 10 800 grammars; parse half: streams <= 3 tokens, lookahead any int",
                     thorough="15 term kinds (adds lit*, lit+, (?! lit), (@@self), ~(@@other)); streams <= 4 tokens (a second alternative of two terms was tried and dropped: the run did not finish within two hours)"),
         outside="grammars outside the template (3+ productions, unions, deeper nesting); the front end that builds the graph from tags is covered by C01/C19",
         assumptions=["monitor installed by wrapping (*strct).Parse in the executor (vWrap); natively a violation of half 2 shows as a fatal stack overflow"],
@@ -204,7 +204,7 @@ PROPS = {
         runs=[dict(pkg=".", files=["root/zz_verif_ref.go", "root/zz_verif_ggcore.go", "root/zz_verif_parse.go", "root/zz_verif_grammars.go", "root/zz_verif_num.go"], harness="^VH_C17_",
                    reach={"VH_C17_Int8": ["converts", "rejects"], "VH_C17_Uint16": ["converts", "rejects"], "VH_C17_Alt": ["converts", "rejects", "other-alternative"],
                           "VH_C17_Join": ["converts", "rejects"], "VH_C17_Slice": ["converts", "rejects"], "VH_C17_SliceBatch": ["converts", "rejects"], "VH_C17_Float32": ["converts", "rejects"]})],
-        bounds=dict(quick="family A: 12 field shapes x all (value, ok) results of the uninterpreted conversion (64-bit symbolic); family B: 40 boundary texts (width limits of every size, hex/octal/binary prefixes, underscores, empty, exponent, Inf/NaN, float32 overflow) x {joined with '-', 1-2 slice elements, float32, float64}",
+        bounds=dict(quick="family A: 12 field shapes x all (value, ok) results of the uninterpreted conversion (64-bit symbolic); family B: 40 boundary texts (width limits of every size, hex/octal/binary prefixes, underscores, empty, exponent, Inf/NaN, float32 overflow) x {joined with '-' (also with 0-2 elided tokens between the joined tokens), 1-2 slice elements (also of a slice of pointers), float32, float64}",
                     thorough="same (the finite kind set is complete)"),
         outside="numeric texts outside the catalogue for floats and slices (family B is an enumeration, not solver-decided); complex kinds",
         assumptions=["strconv.ParseInt/ParseUint on opaque text = uninterpreted function of (text, base, bitSize) with contract ok => value fits bitSize"],
@@ -218,7 +218,7 @@ PROPS = {
               dict(pkg="lexer", files=["lexer/zz_verif_stateful.go", "lexer/zz_verif_lexdefs.go", "lexer/zz_verif_lexgen.go", "lexer/zz_verif_conc.go"], harness="^VH_C09_",
                    reach={"VH_C09_Frame_PushPop": ["lexed", "error"], "VH_C09_History_Backref": ["compared"], "VH_C09_History_Collide": ["compared"], "VH_C09_Interleave_PushPop": ["interleaved"], "VH_C09_Interleave_Backref": ["interleaved"], "VH_C09_Interleave_Zero": ["interleaved"]}),
               dict(pkg="ebnf", files=["ebnf/zz_verif_ebnf.go", "root/zz_verif_ggcore.go"], harness="^VH_C09_", reach={"VH_C09_EBNFParser": ["parsed", "failed"]})],
-        bounds=dict(quick="parser: 6 grammars x streams <= 5 tokens (3 Parse calls + String + Lex per path on one frozen parser); lexer: 5 definitions x inputs <= 3 bytes lexed twice on one frozen definition; cache: 2 back-reference definitions, first input <= 3 (2) bytes, second <= 3 (4) bytes over a 3-letter alphabet incl. NUL; interleaving: 4 definitions, two lexers of one frozen definition on two inputs of <= 2 arbitrary bytes (<= 3-4 bytes over a 3-letter alphabet for the back-reference definitions), the order of their Next calls chosen by the solver (one symbolic bit per step), each stream compared with a fresh definition used alone; ebnf: 4 texts on the frozen package-level parser",
+        bounds=dict(quick="parser: 6 grammars x streams <= 5 tokens (3 Parse calls + String + Lex per path on one frozen parser); 2 token-retaining grammars (node Tokens, []lexer.Token capture): the AST of a parse re-inspected after parses of a different input; lexer: 5 definitions x inputs <= 3 bytes lexed twice on one frozen definition; cache: 2 back-reference definitions, first input <= 3 (2) bytes, second <= 3 (4) bytes over a 3-letter alphabet incl. NUL; interleaving: 4 definitions, two lexers of one frozen definition on two inputs of <= 2 arbitrary bytes (<= 3-4 bytes over a 3-letter alphabet for the back-reference definitions), the order of their Next calls chosen by the solver (one symbolic bit per step), each stream compared with a fresh definition used alone; ebnf: 4 texts on the frozen package-level parser",
                     thorough="streams <= 6 tokens; inputs <= 4 bytes"),
         outside="real schedules, the Go memory model below the level of variables, races inside user mappers / Parseable code, generated lexers (their definition value is an empty struct; per-call state only)",
         assumptions=["no data race is possible between calls that write only memory they allocated themselves or were handed by the caller (Go memory model)"],
@@ -230,7 +230,7 @@ PROPS = {
         level_note="trusted: io.Copy / strings.Reader / bytes.Reader models (the writer receives exactly the reader's bytes, no error), fmt model for trace output, reference matcher for regexp on symbolic input; default text/scanner lexer content is outside (routing only)",
         runs=[dict(pkg=".", files=["root/zz_verif_ref.go", "root/zz_verif_ggcore.go", "root/zz_verif_parse.go", "root/zz_verif_grammars.go", "root/zz_verif_entry.go", "root/zz_verif_conc.go", "root/zz_verif_map.go"], harness="^VH_C15_",
                    reach={"VH_C15_Routing": ["parsed", "failed"], "VH_C15_RoutingMapped": ["parsed", "failed"], "VH_C15_Trace_Alt": ["traced"], "VH_C15_Cursor_Seq": ["accept"], "VH_C15_LexEntryPoints": ["lexed"], "VH_C15_RoutingDefault": ["parsed", "failed"], "VH_C15_LexEntryPointsDefault": ["lexed", "lex-error"]})],
-        bounds=dict(quick="Trace/cursor: 6 grammar x configuration pairs, streams <= 5 tokens; routing: stateful lexer (Ident/Num/elided ws) + grammar, inputs <= 3 arbitrary bytes, filename in {\"\", \"f\"}, with and without Upper(\"Ident\")",
+        bounds=dict(quick="Trace/cursor: 6 grammar x configuration pairs + a root production implemented by user code (Parseable), streams <= 5 tokens; routing: stateful lexer (Ident/Num/elided ws) + grammar, inputs <= 3 arbitrary bytes, filename in {\"\", \"f\"}, with and without Upper(\"Ident\")",
                     thorough="streams <= 6 tokens; inputs <= 4 bytes"),
         outside="the default text/scanner lexer's tokenisation; generated lexers' Lex/LexString/LexBytes (they share one code path: LexBytes and Lex call LexString)",
         assumptions=["io.Copy(w, r) delivers exactly the reader's bytes"],
@@ -241,7 +241,7 @@ PROPS = {
         level_text="partial claim, bounded exploration through the symbolic executor: (a) every EBNF syntax tree of a bounded template (Negation symbolic, any modifier, name/literal/token/group, any lookahead marker, sequences and alternatives) is printed by the real String methods and parsed back by the real ebnf parser; the trees must be equal (so no operator is lost or altered); (b) for grammars using every operator, a union and anonymous struct types, the real Parser.String() must not panic, must be accepted by the ebnf package, put the root production first, define every referenced production exactly once, contain every operator of the grammar, and survive a second round trip",
         level_note="trusted: text/scanner executed from SSA on the (concrete) printed text; the template's shape selectors are finite (enumeration through the executor; the solver decides the symbolic Negation flag); whole-grammar half is a fixed catalogue of 3 grammars",
         runs=[dict(pkg="ebnf", files=["ebnf/zz_verif_ebnf.go", "root/zz_verif_ggcore.go"], harness="^VH_C14_", max_steps=60_000_000, reach={"VH_C14_TreeRoundTrip": ["round-trip"], "VH_C14_Literals": ["round-trip"], "VH_C14_Grammar_All": ["grammar"], "VH_C14_Grammar_Anonymous": ["grammar"], "VH_C14_Generated": ["grammar"], "VH_C14_Grammar_WholeBody": ["grammar"], "VH_C14_Grammar_Negations": ["grammar"], "VH_C14_Grammar_AnonTwins": ["grammar"], "VH_C14_Grammar_LookaheadOnly": ["grammar"], "VH_C14_Grammar_CapParens": ["grammar"]})],
-        bounds=dict(quick="trees: first term a leaf or a group (any lookahead marker) around a term, second element (sequence or alternative) a simple leaf; 12 090 trees; grammars: all-operators grammar (incl. literals that need escaping), union grammar, anonymous struct grammar, 48 generated grammars (union root, anonymous struct types, every operator, escaped literals); literal terms: 9 escape-needing texts in sequences and alternatives",
+        bounds=dict(quick="trees: first term a leaf or a group (any lookahead marker) around a term, second element (sequence or alternative) a simple leaf; 12 090 trees; grammars: all-operators grammar (incl. literals that need escaping), union grammar, anonymous struct grammar, 48 generated grammars (union root, anonymous struct types, every operator, escaped literals), whole-body / negation / lookahead-only / capture-in-parentheses grammars; literal terms: 9 escape-needing texts in sequences and alternatives",
                     thorough="group nesting depth 2; 400 generated grammars"),
         outside="grammars outside the three catalogue grammars; literal texts needing escapes beyond quote and backslash; cmd/railroad",
         assumptions=[],
